@@ -9,6 +9,8 @@
 //   call / cany : <points> / <extrema> / <rep> | <query points>
 //   grp   : <points> / <extrema> / <rep> ; ... | <query points>
 //   area / perim : <points> | <copies> | <rep>
+//   perimb : <vertex bit patterns: 16 hex digits per coordinate, x y x y ...> | <copies> | <rep>
+//            (any finite doubles: non-integer dyadic, large magnitudes, inexact differences)
 // <rep> describes the repetition the harness attaches to the polygon:
 //   n | r cols rows sx sy | g cols rows v1x v1y v2x v2y | e x y ... | x c ... | y c ...
 // <extrema> (= repetition.get_extrema()) and <copies> (= get_count(), "-" without repetition) are
@@ -149,11 +151,28 @@ static bool ref_contain(const Pts& poly, int64_t x, int64_t y) {
     return w != 0;
 }
 
-static uint64_t ulp_dist(double a, double b) {
-    if (a == b) return 0;
-    if (!(a >= 0) || !(b >= 0)) return ~0ULL;
-    uint64_t x = dbl_bits(a), y = dbl_bits(b);
-    return x > y ? x - y : y - x;
+// property-level oracle for perimeter(): the closed edge-length sum (times copies) evaluated in
+// long double from the vertices themselves, and the bound of PerimeterProofs.perimeter_error_lemma:
+// |perimeter - copies * sum| <= ((1+u)^(n+7) - 1) * copies * sum, u = 2^-53 (a little slack for the
+// long double evaluation, whose own error is below n * 2^-63 of the sum); zero below three vertices
+static std::string perimeter_oracle(const std::vector<std::pair<double, double>>& v, double pe, double cf) {
+    size_t n = v.size();
+    if (n < 3) return dbl_bits(pe) == 0 ? "ok" : "FAIL perimeter-vs-edges perimeter() of fewer than three vertices is not +0";
+    long double ref = 0;
+    for (size_t i = 0; i < n; i++) {
+        size_t j = (i + 1) % n;
+        long double dx = (long double)v[j].first - (long double)v[i].first, dy = (long double)v[j].second - (long double)v[i].second;
+        ref += sqrtl(dx * dx + dy * dy);
+    }
+    ref *= (long double)cf;
+    long double tol = ref * ((long double)(n + 7) * 1.11022302462515654e-16L * 1.001L);
+    long double err = (long double)pe - ref;
+    if (err < 0) err = -err;
+    if (std::isfinite(pe) && pe >= 0 && err <= tol) return "ok";
+    char b[240];
+    snprintf(b, sizeof b, "FAIL perimeter-vs-edges perimeter() = %.17g, closed edge-length sum times copies = %.20Lg (error %.3Lg, allowed %.3Lg)", pe,
+             ref, err, tol);
+    return b;
 }
 
 struct PolySpec {
@@ -325,22 +344,47 @@ static void run_case(Out& out, const std::string& kind, const std::string& paylo
         } else {
             double pe = P.perimeter();
             out.I(id, hex_dbl(pe));
-            long double ref = 0;
-            if (n >= 3)
-                for (size_t i = 0; i < n; i++) {
-                    size_t j = (i + 1) % n;
-                    long double dx = (long double)(pts[j].first - pts[i].first), dy = (long double)(pts[j].second - pts[i].second);
-                    ref += sqrtl(dx * dx + dy * dy);
-                }
-            ref *= (long double)cf;
-            double refd = (double)ref;
-            uint64_t d = ulp_dist(pe, refd);
-            char b[200];
-            snprintf(b, sizeof b, "FAIL perimeter-vs-edges perimeter() = %.17g, closed edge-length sum times copies = %.17g (%llu ulp)", pe,
-                     refd, (unsigned long long)d);
-            out.P(id, d <= 4 ? "ok" : b);
+            std::vector<std::pair<double, double>> dv;
+            for (auto& q : pts) dv.push_back({(double)q.first, (double)q.second});
+            out.P(id, perimeter_oracle(dv, pe, cf));
         }
         out.count(kind + ":vertices:" + std::to_string(std::min<size_t>(n, 12)));
+        out.count(std::string("rep:") + rep.substr(0, 1));
+        P.clear();
+    } else if (kind == "perimb") {
+        std::vector<std::string> t = toks(sec[0]);
+        std::vector<std::pair<double, double>> dv;
+        for (size_t i = 0; i + 1 < t.size(); i += 2)
+            dv.push_back({bits_dbl(strtoull(t[i].c_str(), NULL, 16)), bits_dbl(strtoull(t[i + 1].c_str(), NULL, 16))});
+        std::string rep = sec.size() > 2 ? sec[2] : "n";
+        PolySpec tmp = parse_poly(" / / " + rep);
+        rep = tmp.rep;
+        Polygon P = {};
+        for (auto& q : dv) P.point_array.append(Vec2{q.first, q.second});
+        set_repetition(P, rep);
+        std::string copies = copies_of(P);
+        std::string pl;
+        for (size_t i = 0; i < dv.size(); i++) pl += (i ? " " : "") + hex_dbl(dv[i].first) + " " + hex_dbl(dv[i].second);
+        std::string id = out.add(kind, pl + " | " + copies + " | " + rep);
+        double cf = P.repetition.type == RepetitionType::None ? 1.0 : (double)P.repetition.get_count();
+        double pe = P.perimeter();
+        out.I(id, hex_dbl(pe));
+        out.P(id, perimeter_oracle(dv, pe, cf));
+        // does the running vertex of the loop (v0 += v1) leave the stored vertices on this input?
+        bool drift = false;
+        if (dv.size() >= 3) {
+            double vx = dv[0].first, vy = dv[0].second;
+            for (size_t i = 1; i < dv.size(); i++) {
+                volatile double dx = dv[i].first - vx, dy = dv[i].second - vy;
+                volatile double nx = vx + dx, ny = vy + dy;
+                vx = nx;
+                vy = ny;
+                if (vx != dv[i].first || vy != dv[i].second) drift = true;
+            }
+        }
+        out.count(std::string("perimb:running-vertex:") + (drift ? "drifts" : "exact"));
+        out.count("perimb:vertices:" + std::to_string(std::min<size_t>(dv.size(), 12)));
+        out.count(std::string("perimb:copies:") + (copies == "-" ? "none" : P.repetition.get_count() >> 53 ? "above-2^53" : "small"));
         out.count(std::string("rep:") + rep.substr(0, 1));
         P.clear();
     } else {
@@ -516,6 +560,72 @@ static Pts gen_group_points(Rng& g, const std::vector<PolySpec>& ps, size_t nq, 
     return q;
 }
 
+// ---------------------------------------------------------------- perimeter on arbitrary finite doubles
+static double gen_coord(Rng& g, int cls, double base) {
+    switch (cls) {
+        case 0: {  // dyadic grid: multiples of 2^-s up to 2^40 in magnitude, up to 60 significant bits before rounding
+            int s = (int)g.below(21);
+            int bitsn = 1 + (int)g.below((uint64_t)(40 + s));
+            int64_t m = (int64_t)(g.next() >> (64 - bitsn));
+            if (g.coin()) m = -m;
+            return std::ldexp((double)m, -s);
+        }
+        case 1: {  // cluster next to a far base point: short edges far from the origin
+            int s = (int)g.below(14);
+            return base + std::ldexp((double)g.range(-4096, 4096), -s);
+        }
+        case 2: {  // mixed magnitudes: differences are not representable
+            int e = (int)g.range(-20, 40);
+            double m = 1.0 + std::ldexp((double)(g.next() >> 12), -52);
+            return (g.coin() ? -m : m) * std::ldexp(1.0, e);
+        }
+        case 3: {  // few significant bits at any scale up to 2^40
+            int e = (int)g.range(-20, 37);
+            return std::ldexp((double)g.range(-7, 7), e);
+        }
+        default: {  // wide exponents (still far from overflow / underflow of the squares)
+            int e = (int)g.range(-300, 300);
+            double m = 1.0 + std::ldexp((double)(g.next() >> 12), -52);
+            return (g.coin() ? -m : m) * std::ldexp(1.0, e);
+        }
+    }
+}
+static std::string gen_perimb(Rng& g) {
+    size_t n = g.chance(10) ? (size_t)g.below(3) : 3 + (size_t)g.below(g.chance(10) ? 60 : 10);
+    int cls = (int)g.below(100);
+    cls = cls < 35 ? 0 : cls < 55 ? 1 : cls < 75 ? 2 : cls < 92 ? 3 : 4;
+    double bx = std::ldexp((double)g.range(-1024, 1024), 30), by = std::ldexp((double)g.range(-1024, 1024), 30);
+    std::vector<std::pair<double, double>> v;
+    if (cls == 3 && g.chance(40) && n >= 3) {  // scaled Pythagorean triangle / rectangle walk: exact edge lengths
+        static const int tri[][2] = {{3, 4}, {5, 12}, {8, 15}, {7, 24}, {20, 21}};
+        int k = (int)g.below(5), e = (int)g.range(-20, 30);
+        double a = std::ldexp((double)tri[k][0], e), b = std::ldexp((double)tri[k][1], e);
+        double ox = std::ldexp((double)g.range(-9, 9), e), oy = std::ldexp((double)g.range(-9, 9), e);
+        v = {{ox, oy}, {ox + a, oy}, {ox + a, oy + b}};
+        if (g.coin()) v.push_back({ox, oy + b});
+    } else {
+        for (size_t i = 0; i < n; i++) {
+            int c = cls;
+            if (g.chance(8)) c = (int)g.below(4);  // an odd vertex of another class
+            if (!v.empty() && g.chance(8)) v.push_back(g.coin() ? v.back() : v[g.below(v.size())]);
+            else if (!v.empty() && g.chance(8)) v.push_back({v.back().first, gen_coord(g, c, by)});
+            else v.push_back({gen_coord(g, c, bx), gen_coord(g, c, by)});
+        }
+    }
+    std::string pl;
+    for (size_t i = 0; i < v.size(); i++) pl += (i ? " " : "") + hex_dbl(v[i].first) + " " + hex_dbl(v[i].second);
+    std::string rep;
+    unsigned r = (unsigned)g.below(100);
+    if (r < 30) rep = "n";
+    else if (r < 60) rep = gen_rep(g);
+    else if (r < 80) rep = "r " + hex_u64(1 + g.below(1000)) + " " + hex_u64(1 + g.below(1000)) + " 1 1";
+    else {  // counts that (double) has to round: columns * rows up to 2^64 - 2^33 + 1
+        uint64_t c = (g.next() >> 32) | 1, w = (g.next() >> 32) | (g.coin() ? 0x80000000ULL : 1);
+        rep = "r " + hex_u64(c) + " " + hex_u64(w) + " 1 1";
+    }
+    return pl + " | - | " + rep;
+}
+
 static std::string poly_payload(const PolySpec& s) { return fmt_pts(s.pts) + " / / " + s.rep; }
 
 int main(int argc, char** argv) {
@@ -608,6 +718,13 @@ int main(int argc, char** argv) {
         std::string rep = gen_rep(g);
         run_case(out, g.coin() ? "area" : "perim", fmt_pts(p) + " | - | " + rep);
     }
+
+    // (e) perimeter on arbitrary finite doubles (bit patterns): dyadic fractions down to 2^-20, magnitudes up
+    //     to 2^40, inexact differences (the running vertex drifts), counts above 2^53.  Own stream, so that
+    //     the cases of (a)-(d) stay what they were.
+    Rng g2(seed * 0x100000001B3ULL + 12345);
+    long NE = thorough ? 60000 : 1500;
+    for (long i = 0; i < NE; i++) run_case(out, "perimb", gen_perimb(g2));
     out.close();
     return 0;
 }
